@@ -276,7 +276,10 @@ def replay(case):
         meta = case["meta"]
         w = CW.init_world(meta["wf"], meta["backend"], accounting=meta["accounting"])
         for a in case["trace"]:
-            w, _ = CW.apply_action(w, tuple(a) if a[0] != "gwf" else ("gwf", a[1]))
+            w, res = CW.apply_action(w, tuple(a) if a[0] != "gwf" else ("gwf", a[1]))
+            if res is not None and a[1] and a[1][0] == "run" and (res.exit_code != 0 or res.crashed()):
+                acc.violation(sig=dict(kind="hist", backend=meta["backend"], what="run failed"), case=case, observed=res.as_dict(), msg=f"[{meta}] gwf {a[1]} failed: {res.exc or res.err_summary()}")
+                return acc.violations
             w.normalize()
         hist_probe(acc, w, case["trace"], meta)
     return acc.violations
